@@ -1239,13 +1239,14 @@ func (p *C09) Extra() map[string]any {
 }
 
 func (p *C09) Rule() string {
-	return "cases: (1) one command with generated input and 0..3 faults (truncate inside/between tokens, corrupt bytes/tokens/lines, invalid UTF-8, over-long input, arbitrary flag values, faulty dictionary or input files, uncreatable -o), under random delivery plan/map order/schedule; (2) labelled musical nonsense of the 10 classes of the property carried by text metadata, YAML field or flag, as single command or `text conv | write` pipeline; (3) every truncation offset of generated sentences; non-trivial = a fault or nonsense label is present or the journal shows a non-identity choice; distinct as for C12 plus the fault/nonsense labels"
+	return "cases: (1) one command with generated input and 0..3 faults (truncate inside/between tokens, corrupt bytes/tokens/lines, invalid UTF-8, over-long input, arbitrary flag values, faulty dictionary or input files, uncreatable -o, a destination that fills up after k bytes), under random delivery plan/map order/schedule; (2) labelled musical nonsense of the 10 classes of the property carried by text metadata, YAML field or flag, as single command or `text conv | write` pipeline; (3) every truncation offset of generated sentences; (4) every flag with every value of a list; (5) growth comparisons: the same command on n and 4n repetitions of a unit, logical clocks compared; non-trivial = a fault or nonsense label is present or the journal shows a non-identity choice; distinct as for C12 plus the fault/nonsense labels"
 }
 
 func (p *C09) Assumptions() []string {
 	return []string{
 		"termination is judged by the logical clock: budget 2e7 + 100*bytes (+ track-count and max-degree terms) ticks, measured cost is about 10 ticks per byte; eof-spin = more than 10000 reads after EOF; a 300 s wall-clock backstop",
-		"write errors on stdout/-o are not injected (no given property constrains them); a mid-stream read error (EIO and friends) is injected and must not end in exit 0",
+		"a mid-stream read error (EIO and friends) and a destination that fills up or breaks after k bytes (stdout as crd names it, -o file) are injected and must not end in exit 0; errors of Close, EPIPE and errors on stderr are not injected",
+			"'promptly' is judged on the logical clock of crd's own code (budget and growth ratio n vs 4n <= 9); real time spent inside dependencies is not judged below the 300 s backstop",
 		"crd write play / crd midi port are not exercised",
 		"--track between 70001 and 2e9-1 and gen attr -d above 1500 are not generated (legitimately heavy work, not a hang)",
 		"an exit-0 run that logged at ERROR level is judged a failure that was not signalled (crd logs at ERROR level only when a command fails)",
